@@ -945,7 +945,9 @@ func (a *Agent) gatherCandidatesSrflx(ctx context.Context, urls []*stun.URI, net
 			if closeErr := c.close(); closeErr != nil {
 				a.log.Warnf("Failed to close candidate: %v", closeErr)
 			}
-			a.log.Warnf("Failed to append to localCandidates and run onCandidateHdlr: %v", err)
+			// The candidate never took ownership of the socket (e.g. the gathering
+			// was canceled while the STUN exchange was in flight): release it here.
+			closeConnAndLog(conn, a.log, "Failed to append to localCandidates and run onCandidateHdlr: %v", err)
 		}
 	}
 
